@@ -5,7 +5,7 @@
    Term syntax (no blanks):  msg = [e;e;...]   e = x<hex> | pub(n) | sig(n,msg) | aead(msg,msg,msg,msg)
      | dh(n,msg) | hkdf(msg,msg,msg,n) | hash(msg) | tlv(n,msg) | junk(n,n)
      | srpA(n) | srpB(n,msg,msg) | srpkc(msg,msg,n,msg) | srpks(msg,msg,n,msg)
-   reply = . | t=msg|t=msg|...
+   reply = . | t=msg|t=msg|... | F:<frame>/<frame>/...  (BLE: the GATT frames of the reply, each in reply syntax)
    Answer: m2spec=<0|1> result=<done|fail:<class>|unsupported> m3acc=<0|1|-> m5acc=<0|1|->
            rec=<0|1|-> (model record = implementation record)  stored=<0|1|-> (accessory stored id and pub(LTSK)) *)
 open Drv
@@ -93,9 +93,26 @@ let rec items_eq (a : sitem list) (b : sitem list) : bool =
   | _, _ -> false
 
 let ob = function None -> "-" | Some true -> "1" | Some false -> "0"
-let rep s = if s = "honest" then None else Some (parse_reply s)
+(* a reply may also be given as the GATT frames it arrived in (BLE):  F:<reply>/<reply>/...
+   (every frame in reply syntax, fragment items are types 12 / 13); it is reassembled by the
+   extracted model of _pairing_char_write (SetupFrames.bf_reply) *)
+exception Frames of string
+let is_framed s = Stdlib.String.length s >= 2 && Stdlib.String.sub s 0 2 = "F:"
+let rep s =
+  if s = "honest" then None
+  else if is_framed s then begin
+    let frames = Stdlib.List.map parse_reply
+        (Stdlib.String.split_on_char '/' (Stdlib.String.sub s 2 (Stdlib.String.length s - 2))) in
+    match SetupFrames.bf_reply frames with
+    | Some d -> Some d
+    | None -> raise (Frames (match SetupFrames.bf_logical frames with
+        | SetupFrames.BfParse -> "parse" | SetupFrames.BfUnsup -> "unsupported"
+        | SetupFrames.BfStarved -> "starved" | SetupFrames.BfReply (_, _) -> "reply"))
+  end
+  else Some (parse_reply s)
 
-let handle = function
+let rec handle req = try handle_ req with Frames k -> "frames-not-reassembled class=" ^ k
+and handle_ = function
   | ["ps"; tr; code; ios_id; a; ltsk; wa; sa_code; sa_salt; sa_b; sa_id; sa_ltsk; m2; m4; m6; rid; rltpk] ->
       let tr = tr_of tr in
       let c = { Setup.ps_code = parse_msg code; ps_ios_id = bytes_of_hex ios_id; ps_a = n_of_dec a;
